@@ -125,6 +125,26 @@ def obs_relr(tab, poke=None):
     return {'offsets': offs, 'num': run_impl(lambda: tab.num_relocations())}
 
 
+def relr_queries(data):
+    """a history of num_relocations() (None) / get_relocation(n) (int) queries derived from the image's content: in range,
+    out of range, negative, repeated, count first or random access first"""
+    hb = sum(data[-80:]) + len(data) // 8
+    pool = [None, 0, 1, 2, 5, -1, -2, 9, 64, -70, None, 3]
+    k = 2 + hb % 5
+    return [pool[(hb // (i + 1) + 3 * i) % len(pool)] for i in range(k)]
+
+
+def hist_relr(tab, qs):
+    """the queries on ONE table object, and whether `_cached_relocations` has been published at the end: compared with
+    the model of the cache (Model/RelrCache relrHist; Props/C08 relr_cache_history_independent, relr_cache_published_iff)"""
+    ans = [run_impl((lambda: tab.num_relocations()) if q is None else (lambda q=q: tab.get_relocation(q)['r_offset'])) for q in qs]
+    return {'answers': ans, 'cached': tab._cached_relocations is not None}
+
+
+def py_index(xs, n):
+    return {'ok': xs[n]} if -len(xs) <= n < len(xs) else {'err': 'indexError'}
+
+
 def open_elf(data):
     from elftools.elf.elffile import ELFFile
     return ELFFile(io.BytesIO(data))
@@ -363,21 +383,30 @@ def eval_relr(ctx, reqs):
             poke = (hb % 4) if hb % 2 else None
             return obs_relr(open_elf(data).get_section(i), poke)
         impl = run_impl(impl_fn)
+        qs = relr_queries(data)
+        himpl = run_impl(lambda data=data, i=i, qs=qs: hist_relr(open_elf(data).get_section(i), qs))
         runs.append({'p': 'C08', 'k': 'run_relr', 'hex': hx(data), 'le': le, 'cls': cls, 'machine': req['machine'],
-                     'offset': img.offsets[i], 'size': len(table), 'entsize': entsize})
+                     'offset': img.offsets[i], 'size': len(table), 'entsize': entsize, 'hist': qs})
         wf = enc['wf'] and req['variant'] == 'ok'
         expect = {'offsets': {'ok': enc['expect']['offsets']}, 'num': {'ok': enc['expect']['num']}} if wf else None
+        # what the property prescribes for the history: every answer is the query evaluated on the standard's expansion
+        hexpect = None
+        if wf:
+            xs = enc['expect']['offsets']
+            hexpect = [{'ok': len(xs)} if q is None else py_index(xs, q) for q in qs]
         fops = [{'op': 'sec', 'i': i, 'get': [content_bit(data, 2)] if content_bit(data, 1) else []},
                 {'op': 'byname', 'name': hx(b'.relr.dyn')}]
         if content_bit(data):
             fops.reverse()
         fruns.append({'p': 'C08', 'k': 'file_api', 'hex': hx(data), 'ops': fops})
-        out.append({'impl': impl, 'expect': expect, 'wf': wf, 'fops': fops, 'fimpl': impl_file_ops(data, fops)})
+        out.append({'impl': impl, 'expect': expect, 'wf': wf, 'fops': fops, 'fimpl': impl_file_ops(data, fops),
+                    'himpl': himpl, 'hexpect': hexpect, 'hqs': qs})
     models = ask_safe(ctx, runs)
     for o, m in zip(out, models):
         if 'fatal' in m:
             raise RuntimeError('driver: %s' % m['fatal'])
         o['model'] = m['model']
+        o['hmodel'] = m['hist']
     ask_files(ctx, fruns, out)
     return out
 
@@ -821,13 +850,22 @@ def run_stream(ctx, stream, n):
                 ctx.out.count('apply:lookup:by-name==by-sh_info')
             if not o['wf']:
                 ctx.out.count(stream + ':outside-domain')
+            if 'himpl' in o:
+                ctx.out.count('relr:cache-history:queries', len(o['hqs']))
+                ctx.out.count('relr:cache-history:' + ('published' if (o['himpl'].get('ok') or {}).get('cached') else 'not-published'))
+                for a in (o['himpl'].get('ok') or {}).get('answers', []):
+                    ctx.out.count('relr:cache-history:answer:' + ('ok' if 'ok' in a else a['err']))
             if o['wf'] and not prop_holds(stream, req, o):
                 ctx.out.violation('property', stream, case, expect=o['expect'], got=o['impl'], model=o['model'])
             elif o['wf'] and not file_prop_holds(stream, req, o):
                 ctx.out.violation('property', stream, case, expect=o['expect'], got=o['fimpl'], model=o.get('fmodel'),
                                   lookup=o.get('lookup'))
+            elif o['wf'] and 'himpl' in o and (o['himpl'].get('ok') or {}).get('answers') != o['hexpect']:
+                ctx.out.violation('property', stream, case, expect=o['hexpect'], got=o['himpl'], model=o.get('hmodel'), queries=o['hqs'])
             elif o['impl'] != o['model']:
                 ctx.out.violation('correspondence', stream, case, got=o['impl'], model=o['model'])
+            elif 'himpl' in o and o['himpl'] != o['hmodel']:
+                ctx.out.violation('correspondence', stream, case, got=o['himpl'], model=o['hmodel'], queries=o['hqs'])
             elif o.get('fimpl') != o.get('fmodel'):
                 ctx.out.violation('correspondence', stream, case, got=o['fimpl'], model=o['fmodel'], ops=o['fops'])
         if ctx.time_left() < 5:
@@ -846,8 +884,9 @@ def replay(ctx, payload):
     v = payload['violation']
     stream, req = v['stream'], v['case']['req']
     o = EVAL[stream](ctx, [req])[0]
-    fails_prop = bool(o['wf'] and not (prop_holds(stream, req, o) and file_prop_holds(stream, req, o)))
-    fails_corr = o['impl'] != o['model'] or o.get('fimpl') != o.get('fmodel')
+    hist_prop = bool(o['wf'] and 'himpl' in o and (o['himpl'].get('ok') or {}).get('answers') != o['hexpect'])
+    fails_prop = bool(o['wf'] and not (prop_holds(stream, req, o) and file_prop_holds(stream, req, o))) or hist_prop
+    fails_corr = o['impl'] != o['model'] or o.get('fimpl') != o.get('fmodel') or o.get('himpl') != o.get('hmodel')
     return {'stream': stream, 'case': v['case'], 'impl': o['impl'], 'expect': o['expect'], 'model': o['model'],
             'file_ops': o.get('fops'), 'file_impl': o.get('fimpl'), 'file_model': o.get('fmodel'), 'lookup': o.get('lookup'),
             'wf': o['wf'], 'fails': fails_prop or fails_corr, 'kind': 'property' if fails_prop else ('correspondence' if fails_corr else None)}
